@@ -96,6 +96,10 @@ def main():
     finally:
         sh("git checkout -- .", cwd=REPO)
     meta["checks"] = results
+    if pid in results:
+        meta.setdefault("first_run_verdict", results[pid]["verdict"])
+    if os.environ.get("SEED_ROUND"):
+        meta["round"] = int(os.environ["SEED_ROUND"])
     # ---- 3. store
     d = f"/verif/seeded/{pid}-{n}"
     os.makedirs(d, exist_ok=True)
@@ -108,7 +112,7 @@ def main():
     # annotations made by hand survive a re-evaluation
     if os.path.exists(f"{d}/meta.json"):
         prev = json.load(open(f"{d}/meta.json"))
-        for k in ("needs", "first_run_verdict", "caught_after_strengthening", "rebased"):
+        for k in ("needs", "first_run_verdict", "caught_after_strengthening", "rebased", "round"):
             if k in prev: meta[k] = prev[k]
     json.dump(meta, open(f"{d}/meta.json", "w"), indent=1)
     print(json.dumps({k: meta[k] for k in ("property", "n", "confirmed", "demo_passes_on_unchanged_tree", "suite_passes_with_change", "demo_fails_with_change")}))
